@@ -20,7 +20,8 @@ def cases(seed, tier, broken=()):
     out = []
     if tier == "quick":
         for i, cls in enumerate(CLASSES):
-            out.append({"mode": "lazy", "cls": cls, "chunks": CHUNKS[i % 4], "sched": "synchronous", "mseed": int(rng.integers(0, 2**31))})
+            out.append({"mode": "lazy", "cls": cls, "chunks": CHUNKS[i % 4], "sched": "synchronous", "mseed": int(rng.integers(0, 2**31)),
+                        "prep": PREP[i % len(PREP)]})
             ch = CHUNKS[(i + 1) % 5]
             if ch == "tiny" and "Rotator" in cls:
                 ch = "both"  # one element per chunk with an iterative rotation takes a minute: thorough tier only
@@ -28,14 +29,18 @@ def cases(seed, tier, broken=()):
     else:
         for cls in CLASSES:
             for ch in CHUNKS:
-                out.append({"mode": "lazy", "cls": cls, "chunks": ch, "sched": "synchronous", "mseed": int(rng.integers(0, 2**31))})
+                for pr in PREP:
+                    out.append({"mode": "lazy", "cls": cls, "chunks": ch, "sched": "synchronous", "mseed": int(rng.integers(0, 2**31)), "prep": pr})
                 for sc in SCHED:
                     out.append({"mode": "eager", "cls": cls, "chunks": ch, "sched": sc, "mseed": int(rng.integers(0, 2**31))})
     return out
 
 
+PREP = ["plain", "standardize", "coslat", "standardize+coslat"]
+
+
 def nontrivial_key(case, info):
-    return (case["mode"], case["cls"], case["chunks"], case["sched"])
+    return (case["mode"], case["cls"], case["chunks"], case["sched"], case.get("prep", "plain"))
 
 
 def make(case):
@@ -65,7 +70,7 @@ def chunked(A, how):
     return A.chunk({"time": 1, "lat": 1, "lon": 1})
 
 
-def build(cls, X, Y, compute, check_nans=True):
+def build(cls, X, Y, compute, check_nans=True, prep="plain"):
     """returns a function fitting (model, rotator-or-None)"""
     base = cls.split("+")[0]
     zc = zoo.base_of(base)
@@ -86,6 +91,11 @@ def build(cls, X, Y, compute, check_nans=True):
         if zc == "CPCCA":
             cfg["alpha"] = 0.5
     two = zc in zoo.CROSS
+    # the preprocessing statistics (standard deviation, latitude weights) are part of the fit path as well
+    if "standardize" in prep:
+        cfg["standardize"] = True
+    if "coslat" in prep:
+        cfg["use_coslat"] = True
 
     def fit():
         m = zoo.construct(base, cfg)
@@ -137,7 +147,8 @@ def run(case):
              "threads4": dict(scheduler="threads", num_workers=4), "threads16": dict(scheduler="threads", num_workers=16)}[case["sched"]]
     # reference: the same data held in memory
     try:
-        fit_np, two = build(cls, X, Y, True)
+        prep = case.get("prep", "plain") if case["mode"] == "lazy" else "plain"
+        fit_np, two = build(cls, X, Y, True, prep=prep)
         m_ref, r_ref = fit_np()
     except RuntimeError as e:
         if "did not converge" in str(e):
@@ -177,7 +188,7 @@ def run(case):
     # ---------------- deferred: no computation at all during fit / rotator fit
     try:
         with count_scheduler_calls() as calls:
-            fit_d, _ = build(cls, Xd, Yd, False, check_nans=False)
+            fit_d, _ = build(cls, Xd, Yd, False, check_nans=False, prep=case.get("prep", "plain"))
             m, r = fit_d()
             n_calls = len(calls)
     except NotImplementedError:
